@@ -19,8 +19,8 @@ import (
 )
 
 const (
-	nameDelete = "\u0995\u09bf_\u09b0\u09bf\u09ae\u09c1\u09ad"                               // কি_রিমুভ
-	nameKeys   = "\u0985\u09ac\u09cd\u099c\u09c7\u0995\u09cd\u099f_\u0995\u09bf"             // অব্জেক্ট_কি
+	nameDelete = "\u0995\u09bf_\u09b0\u09bf\u09ae\u09c1\u09ad"                         // কি_রিমুভ
+	nameKeys   = "\u0985\u09ac\u09cd\u099c\u09c7\u0995\u09cd\u099f_\u0995\u09bf"       // অব্জেক্ট_কি
 	nameValues = "\u0985\u09ac\u09cd\u099c\u09c7\u0995\u09cd\u099f_\u09ae\u09be\u09a8" // অব্জেক্ট_মান
 )
 
